@@ -60,6 +60,8 @@ import pickle
 import types
 import dill
 
+from edgegraph.structure.base import BaseObject
+
 
 class _LazySave(object):
     """
@@ -104,6 +106,7 @@ class _NonrecursivePickler(dill.Pickler):
         dill.Pickler.__init__(self, file, **kwargs)
         self.lazywrites = []
         self._eager = 0
+        self._shells = []
         self.realwrite = file.write
 
         # TODO: this creates a reference loop and prevents gc
@@ -128,10 +131,10 @@ class _NonrecursivePickler(dill.Pickler):
             raise NotImplementedError(  # pragma: no cover
                 "Edgegraph _NonrecursivePickler does not support save_persistent_id option!"
             )
-        if self._eager:
-            self.realsave(obj)
-        else:
+        if not self._eager:
             self.lazywrites.append(_LazySave(obj))
+        elif not (isinstance(obj, BaseObject) and self._save_shell(obj)):
+            self.realsave(obj)
 
     #: Alias to the true :py:meth:`dill.Pickler.save`.
     realsave = dill.Pickler.save
@@ -155,8 +158,9 @@ class _NonrecursivePickler(dill.Pickler):
         dill builds it in two steps (the ``__class__`` cell of a method that
         uses ``super()`` refers back to the class) which it tracks on a stack
         that only works while the children are written inside the parent's
-        ``save()``.  Those are small objects, not graphs, so below them the
-        plain recursive algorithm is used.
+        ``save()``.  Below them the plain recursive algorithm is used -- but
+        it stops at graph objects (see :py:meth:`_save_shell`), so that a
+        closure referring into a graph does not walk the graph recursively.
         """
         if isinstance(obj, (type, types.FunctionType)):
             self._eager += 1
@@ -164,8 +168,47 @@ class _NonrecursivePickler(dill.Pickler):
                 self.realsave(obj)
             finally:
                 self._eager -= 1
+            if not self._eager:
+                self._queue_shell_states()
         else:
             self.realsave(obj)
+
+    def _save_shell(self, obj):
+        """
+        Below a by-value class or function: write a graph object without its
+        state, and remember the state for later.
+
+        The object is created and memoized right away, so whatever refers to
+        it gets the right object; its state (links, universes, attributes --
+        the rest of the graph) goes back to the queue once the class or
+        function is complete, as ``<the object> <state> BUILD POP``.
+
+        :return: False if the object does not reduce the plain way (the
+           caller then saves it recursively).
+        """
+        memoized = self.memo.get(id(obj))
+        if memoized is not None:
+            self.write(self.get(memoized[0]))
+            return True
+        reduced = obj.__reduce_ex__(self.proto)
+        if (
+            not isinstance(reduced, tuple)
+            or len(reduced) < 3
+            or any(extra is not None for extra in reduced[3:])
+        ):
+            return False
+        func, args, state = reduced[:3]
+        self.save_reduce(func, args, obj=obj)
+        if state is not None:
+            self._shells.append((obj, state))
+        return True
+
+    def _queue_shell_states(self):
+        shells, self._shells = self._shells, []
+        for obj, state in shells:
+            self.lazywrites.append((self.get(self.memo[id(obj)][0]),))
+            self.lazywrites.append(_LazySave(state))
+            self.lazywrites.append((pickle.BUILD + pickle.POP,))
 
     def dump(self, obj):
         """Write a pickled representation of obj to the open file."""
